@@ -30,6 +30,7 @@ WireCase(t) ==
 WireStrings == UNION { Mutants(EncTx(tx)) : tx \in MutBases }
                \cup { EncTx(tx) : tx \in FamNullIss }
                \cup { EmptyWitnessForm(tx) : tx \in { x \in MutBases : ~HasWitness(x) } }
+               \cup UNION { WidenMutants(EncTx(tx)) : tx \in BoundaryBases } \cup { EncTx(tx) : tx \in BoundaryBases }
 Depth2 == IF Tier = "quick" THEN {} ELSE UNION { Mutants(m) : m \in UNION { Mutants(EncTx(tx)) : tx \in FamCounts } }
 
 \* constant-level restatement of the model-level claims on exactly what is emitted
